@@ -49,6 +49,14 @@ struct TestPki {
         if (p7) { int n = i2d_PKCS7(p7, nullptr); if (n > 0) { out.resize((size_t)n); unsigned char *p = out.data(); i2d_PKCS7(p7, &p); } PKCS7_free(p7); }
         sk_X509_free(certs); BIO_free(in); ERR_clear_error(); return out;
     }
+    // the same, with `before` placed in the certificate set AHEAD of the signer's certificate (PKCS7_sign always writes the signer first)
+    Bytes signDetachedSignerLast(const Ident &signer, const Bytes &data, const std::vector<X509 *> &before) {
+        BIO *in = BIO_new_mem_buf(data.data(), (int)data.size()); int flags = PKCS7_BINARY | PKCS7_DETACHED | PKCS7_NOATTR; Bytes out;
+        PKCS7 *p7 = PKCS7_sign(nullptr, nullptr, nullptr, in, flags | PKCS7_PARTIAL);
+        if (p7) { for (X509 *c : before) PKCS7_add_certificate(p7, c); bool ok = PKCS7_sign_add_signer(p7, signer.cert, signer.key, EVP_sha256(), flags | PKCS7_NOCERTS) != nullptr; if (ok) PKCS7_add_certificate(p7, signer.cert); ok = ok && PKCS7_final(p7, in, flags) == 1;
+            if (ok) { int n = i2d_PKCS7(p7, nullptr); if (n > 0) { out.resize((size_t)n); unsigned char *p = out.data(); i2d_PKCS7(p7, &p); } } PKCS7_free(p7); }
+        BIO_free(in); ERR_clear_error(); return out;
+    }
     // location of the signature value (encrypted digest) inside a PKCS#7 blob produced above
     static bool signatureValueRange(const Bytes &p7der, size_t &off, size_t &len) {
         const unsigned char *p = p7der.data(); PKCS7 *p7 = d2i_PKCS7(nullptr, &p, (long)p7der.size()); if (!p7) return false; bool ok = false;
